@@ -14,6 +14,8 @@ import (
 	"go.pennock.tech/tabular/html"
 	tjson "go.pennock.tech/tabular/json"
 	"go.pennock.tech/tabular/markdown"
+	"go.pennock.tech/tabular/properties"
+	"go.pennock.tech/tabular/properties/align"
 	"go.pennock.tech/tabular/texttable"
 	"go.pennock.tech/tabular/texttable/decoration"
 )
@@ -28,7 +30,7 @@ var c14Slots = []string{"csv", "html:A", "html:B", "json", "markdown", "text:utf
 const c14MainSlots = 10
 
 type C14Render struct {
-	Slot  int `json:"slot"`  // -1: not a render but a cell appended to row AddRow of the table (see Add)
+	Slot int `json:"slot"` // -1: not a render but a cell appended to row AddRow of the table (see Add)
 	// Fresh: 0 reuse this slot's wrapper (text slots: ONE TextTable switched between decorations), 1 new Wrap,
 	// 2 package-level / auto entry, 3 RenderTo of the reused wrapper into a failing writer (not judged; what
 	// follows is), 4 auto.Render around the dedicated reused wrapper of slot Over with this slot's style,
@@ -42,23 +44,31 @@ type C14Render struct {
 }
 
 type C14Spec struct {
-	Table   TableSpec   `json:"table"`
-	Props   bool        `json:"props"`  // set user properties on table, columns, rows, cells
-	Misuse  bool        `json:"misuse"` // provoke an error on the table before rendering
+	Table  TableSpec `json:"table"`
+	Props  bool      `json:"props"`  // set user properties on table, columns, rows, cells
+	Misuse bool      `json:"misuse"` // provoke an error on the table before rendering
 	// TwoTables: the table's first ordinary row is also attached to another,
 	// longer table (a shared totals row): it now names that table as its own
-	TwoTables bool `json:"two_tables,omitempty"`
-	Renders []C14Render `json:"renders"`
+	TwoTables bool        `json:"two_tables,omitempty"`
+	Renders   []C14Render `json:"renders"`
+	// World: instead of one table, several tables with their own long-lived
+	// wrappers rendered in one history (c14_world.go); the fields above are unused
+	World *C14World `json:"world,omitempty"`
 }
 
 type userKey struct{ n int }
 
-func c14Snapshot(t tabular.Table, keys []interface{}) string {
+func c14Snapshot(t tabular.Table, keys []interface{}) string { return c14SnapshotWith(t, keys, true) }
+
+// withView: the whole view as JSON on top (the library-interpreted column
+// properties are user-set state too); without it they are listed per column
+func c14SnapshotWith(t tabular.Table, keys []interface{}, withView bool) string {
 	var sb strings.Builder
-	// the library-interpreted column properties (alignment, skipable) are user-set state too
-	if v, err := json.Marshal(extractView(t)); err == nil {
-		sb.Write(v)
-		sb.WriteString("\n")
+	if withView {
+		if v, err := json.Marshal(extractView(t)); err == nil {
+			sb.Write(v)
+			sb.WriteString("\n")
+		}
 	}
 	fmt.Fprintf(&sb, "rows=%d cols=%d\n", t.NRows(), t.NColumns())
 	props := func(po tabular.PropertyOwner) string {
@@ -74,7 +84,11 @@ func c14Snapshot(t tabular.Table, keys []interface{}) string {
 		if col == nil {
 			fmt.Fprintf(&sb, "col%d=nil\n", c)
 		} else {
-			fmt.Fprintf(&sb, "col%d=%s\n", c, props(col))
+			fmt.Fprintf(&sb, "col%d=%s", c, props(col))
+			if !withView {
+				fmt.Fprintf(&sb, " align=%v skip=%v", col.GetProperty(align.PropertyType), col.GetProperty(properties.Skipable))
+			}
+			sb.WriteString("\n")
 		}
 	}
 	cells := func(cs []tabular.Cell) {
@@ -105,6 +119,15 @@ func c14Snapshot(t tabular.Table, keys []interface{}) string {
 	return sb.String()
 }
 
+// c14After: the snapshot after as (length of the prefix shared with the snapshot before, the rest)
+func c14After(before, after string) string {
+	n := 0
+	for n < len(before) && n < len(after) && before[n] == after[n] {
+		n++
+	}
+	return cqPair(cqNat(n), cqStr(after[n:]))
+}
+
 func c14Text(r *RNG) ItemSpec {
 	return Str(pick(r, []string{"a", "bb", "x y", "", "q\"r", "l1\nl2", "l1\nl2\n", "é", "<&>", "p|q", "1,2", "日本", "é"}))
 }
@@ -113,9 +136,9 @@ func init() {
 	register(&Prop{
 		ID:       "C14",
 		Imports:  "From Tab Require Import Run.Glue Run.C14Run.",
-		CaseType: "(view * list N * list N * list (res (list N)) * list (nat * nat))",
-		CaseFn:   "C14_case2",
-		ModelFn:  "C14_model2",
+		CaseType: "(list view * list (nat * nat) * list N * (nat * list N) * list (res (list N)) * list (nat * nat))",
+		CaseFn:   "C14_case_w",
+		ModelFn:  "C14_model_w",
 		Rule: "a table (fixed shapes + random; optionally with user properties on the table, every column incl. column 0, rows and cells, and a pre-existing error) is rendered by a sequence of renders over 9 slots " +
 			"(csv, html with two different Id/Class/Caption/row-class settings from ONE reused HTMLTable, json, markdown, text in 4 decorations), each through the slot's reused wrapper, a fresh Wrap or a package-level/auto entry point; " +
 			"further slots: a hand-written decoration never passed through Populate, and four style strings that abbreviate several registered names (12 renders each through every route); runs of adjacent separators; each slot's own long-lived wrapper, auto applied around another slot's long-lived wrapper, a row shared with a second table; " +
@@ -243,12 +266,16 @@ func init() {
 				}
 				out = append(out, mustJSON(C14Spec{Table: ts, Props: r.Bool(), Misuse: r.Pct(30), TwoTables: r.Pct(20), Renders: rs}))
 			}
+			out = append(out, c14WorldGen(r, tier)...)
 			return out
 		},
 		Run: func(spec json.RawMessage) CaseOut {
 			var sp C14Spec
 			if err := json.Unmarshal(spec, &sp); err != nil {
 				panic(err)
+			}
+			if sp.World != nil {
+				return c14RunWorld(spec, sp.World)
 			}
 			t := tabular.New()
 			sp.Table.Build(t)
@@ -612,7 +639,8 @@ func init() {
 				tags = append(tags, "row-shared-with-another-table")
 			}
 			return CaseOut{
-				Coq:        fmt.Sprintf("(%s, %s, %s, %s, %s)", view.Coq(true), cqStr(before), cqStr(after), cqList(distinct), cqList(renders)),
+				// one table; render id 0 is the CSV render of the table as first built
+				Coq:        fmt.Sprintf("([%s], [(0%%nat, 0%%nat)], %s, %s, %s, %s)", view.Coq(true), cqStr(before), c14After(before, after), cqList(distinct), cqList(renders)),
 				Desc:       desc,
 				Size:       sp.Table.Size()*20 + len(sp.Renders),
 				Tags:       tags,
@@ -624,6 +652,9 @@ func init() {
 			var sp C14Spec
 			if err := json.Unmarshal(spec, &sp); err != nil {
 				return nil
+			}
+			if sp.World != nil {
+				return c14ShrinkWorld(sp.World)
 			}
 			var out []json.RawMessage
 			for i := range sp.Renders {
